@@ -314,10 +314,15 @@ class TopLevelVisitor(ast.NodeVisitor):
         if isinstance(node.test, ast.Compare):  # pragma: nobranch
             try:
                 if IS_PY_GE_312:
+                    left, right = node.test.left, node.test.comparators[0]
+                    if isinstance(left, ast.Constant):
+                        # the guard may be spelled '__main__' == __name__
+                        left, right = right, left
                     if all([
+                        len(node.test.ops) == 1,
                         isinstance(node.test.ops[0], ast.Eq),
-                        node.test.left.id == '__name__',
-                        node.test.comparators[0].value == '__main__',
+                        left.id == '__name__',
+                        right.value == '__main__',
                     ]):
                         # Ignore main block (but not its else branch, which
                         # does run when the module is imported)
